@@ -28,9 +28,12 @@ def run_case(tid, case):
     pre_objs = [rs.build_schedule(case["s"], xr)]
     if case.get("two"):
         pre_objs.append(rs.build_schedule(list(reversed(case["s"])), xr))
-    pre = [rs.project_schedule(o, with_fp=True) for o in pre_objs]
-    if rs.project_schedule(pre_objs[0]) != [_nofp(el) for el in case["s"]]:
-        raise tlc.MachineryError("projection of the real objects differs from the schedule they were built from: %s" % (case["s"],))
+    written = [case["s"]] + ([list(reversed(case["s"]))] if case.get("two") else [])
+    # the recorded input is the WRITTEN schedule (expected results are never computed from attributes of the real objects);
+    # only the fingerprint of the further properties is taken from the objects, before the filter runs
+    pre = [rs.with_fingerprints(w, o) for w, o in zip(written, pre_objs)]
+    # do the freshly built real objects say what was written? (a difference on a kept task shows up in L1 ExactSelection)
+    differs = [rs.project_schedule(o) != [_nofp(el) for el in w] for w, o in zip(written, pre_objs)]
     items = []
     try:
         post_objs = rs.run_filter(pre_objs, case["F"], case["mode"])
@@ -41,7 +44,7 @@ def run_case(tid, case):
     if len(post_objs) != len(pre_objs):
         return [{"id": tid, "case": case, "s": pre[0], "F": case["F"], "mode": case["mode"], "crash": "filter returned %d challenges for %d" % (len(post_objs), len(pre_objs))}]
     for ci, objs in enumerate(post_objs):
-        it = {"id": "%s.%d" % (tid, ci), "case": case, "s": pre[ci], "F": case["F"], "mode": case["mode"], "l2": True, "out": rs.project_schedule(objs, with_fp=True)}
+        it = {"id": "%s.%d" % (tid, ci), "case": case, "s": pre[ci], "F": case["F"], "mode": case["mode"], "l2": True, "out": rs.project_schedule(objs, with_fp=True), "built_differs": differs[ci]}
         try:
             obs = rs.observe_allocator(objs)
             it.update({"m": obs["m"], "jps": obs["jps"], "tpj": obs["tpj"], "progress": obs["progress"]})
@@ -81,7 +84,7 @@ def random_cases(seed, n):
             elif k < 0.7:
                 filters.append({"k": "type", "v": rnd.choice(rs.TYPES + ["no-such-type", "t1"])})
             else:
-                filters.append({"k": "tag", "v": rnd.choice(rs.TAGS + ["no-such-tag", "bulk"])})
+                filters.append({"k": "tag", "v": rnd.choice(["index", "index", "search"] + rs.TAGS + ["no-such-tag", "bulk", "Index"])})
         uniq = []
         for f in filters:
             if f not in uniq:
@@ -106,7 +109,7 @@ def validate(items, out, name="c11trace"):
     ok = [it for it in items if "crash" not in it]
     index = {it["id"]: it for it in ok}
     if ok:
-        payload = [{k: v for k, v in it.items() if k not in ("case", "progress")} for it in ok]
+        payload = [{k: v for k, v in it.items() if k not in ("case", "progress", "built_differs")} for it in ok]
         if any(len(it["id"]) > 12 for it in payload):
             raise tlc.MachineryError("trace ids must stay short (TLC wraps long verdict lines)")
         verdicts = tracecheck.validate(["Allocator", "TaskFilter"], "TraceTaskFilter", "TraceTaskFilter.cfg", payload + [CANARY], name=name, chunk=None, timeout=1500)
@@ -118,6 +121,9 @@ def validate(items, out, name="c11trace"):
             for tid in verdicts.l2:
                 it = index[tid]
                 out.drift.append("case %s: filtered schedule differs from the transcription in TaskFilter.tla (%s %s on %s -> %s)" % (tid, it["mode"], rs.filter_strings(it["F"]), _short(it["s"]), _short(it["out"])))
+            for it in ok:
+                if it["built_differs"] and it["id"] not in verdicts.l1 and sum(1 for d in out.drift if d.startswith("real objects")) < 5:
+                    out.drift.append("real objects built from a written schedule do not say what was written (case %s: %s)" % (it["id"], _short(it["s"])))
         for tid, fails in verdicts.l1.items():
             cl = sorted({c for _, cs in fails for c in cs})
             bad.append((index[tid], [c for c in cl if ":" not in c], [c for c in cl if ":" in c]))
